@@ -30,6 +30,24 @@ pub enum Codec {
     CborPacked,
     /// through a serde_json::Value tree (to_value / from_value), then text
     JsonValue,
+    /// pretty-printed JSON text, read back with `from_str` (borrowed input)
+    JsonPretty,
+    /// the harness's own positional, non-self-describing format (`poscodec`): drives `visit_seq`
+    Positional,
+}
+
+/// How the value under test is embedded in what is actually sent.
+#[derive(Clone, Copy, Debug, PartialEq, Eq)]
+pub enum Wrap {
+    None,
+    /// `vec![v, v]`
+    Vec2,
+    /// `Some(v)`
+    Some,
+    /// `(v, v)`
+    Pair,
+    /// `Box::new(v)`
+    Boxed,
 }
 
 impl Codec {
@@ -40,6 +58,8 @@ impl Codec {
             Codec::Borsh => "borsh",
             Codec::CborPacked => "serde_cbor(packed)",
             Codec::JsonValue => "serde_json(Value tree)",
+            Codec::JsonPretty => "serde_json(pretty, from_str)",
+            Codec::Positional => "positional(visit_seq)",
         }
     }
 }
@@ -64,6 +84,7 @@ pub struct PipeScn {
     pub nseg: usize,
     pub nums: Vec<f64>,
     pub codec: Codec,
+    pub wrap: Wrap,
     pub pipe: PipeCfg,
 }
 
@@ -202,6 +223,8 @@ fn encode_plain<V: Wire>(codec: Codec, v: &V) -> Result<Vec<u8>, String> {
     match codec {
         Codec::Json => serde_json::to_vec(v).map_err(|e| e.to_string()),
         Codec::JsonValue => serde_json::to_value(v).and_then(|t| serde_json::to_vec(&t)).map_err(|e| e.to_string()),
+        Codec::JsonPretty => serde_json::to_vec_pretty(v).map_err(|e| e.to_string()),
+        Codec::Positional => crate::poscodec::to_vec(v).map_err(|e| e.to_string()),
         Codec::Cbor => serde_cbor::to_vec(v).map_err(|e| e.to_string()),
         Codec::CborPacked => serde_cbor::ser::to_vec_packed(v).map_err(|e| e.to_string()),
         #[cfg(feature = "borsh")]
@@ -214,6 +237,8 @@ fn decode_plain<V: Wire>(codec: Codec, b: &[u8]) -> Result<V, String> {
     match codec {
         Codec::Json => serde_json::from_slice(b).map_err(|e| e.to_string()),
         Codec::JsonValue => serde_json::from_slice::<serde_json::Value>(b).and_then(serde_json::from_value).map_err(|e| e.to_string()),
+        Codec::JsonPretty => std::str::from_utf8(b).map_err(|e| e.to_string()).and_then(|s| serde_json::from_str(s).map_err(|e| e.to_string())),
+        Codec::Positional => crate::poscodec::from_slice(b).map_err(|e| e.to_string()),
         Codec::Cbor | Codec::CborPacked => serde_cbor::from_slice(b).map_err(|e| e.to_string()),
         #[cfg(feature = "borsh")]
         Codec::Borsh => borsh::from_slice(b).map_err(|e| format!("{e:?}")),
@@ -225,6 +250,8 @@ fn encode_piped<V: Wire>(codec: Codec, v: &V, w: &mut PipeW) -> Result<(), Strin
     match codec {
         Codec::Json => serde_json::to_writer(w, v).map_err(|e| e.to_string()),
         Codec::JsonValue => serde_json::to_value(v).and_then(|t| serde_json::to_writer(w, &t)).map_err(|e| e.to_string()),
+        Codec::JsonPretty => serde_json::to_writer_pretty(w, v).map_err(|e| e.to_string()),
+        Codec::Positional => crate::poscodec::to_writer(w, v).map_err(|e| e.to_string()),
         Codec::Cbor => serde_cbor::to_writer(w, v).map_err(|e| e.to_string()),
         Codec::CborPacked => {
             let mut ser = serde_cbor::Serializer::new(serde_cbor::ser::IoWrite::new(w)).packed_format();
@@ -240,6 +267,8 @@ fn decode_piped<V: Wire>(codec: Codec, r: &mut PipeR) -> Result<V, String> {
     match codec {
         Codec::Json => serde_json::from_reader(r).map_err(|e| e.to_string()),
         Codec::JsonValue => serde_json::from_reader::<_, serde_json::Value>(r).and_then(serde_json::from_value).map_err(|e| e.to_string()),
+        Codec::JsonPretty => serde_json::from_reader(r).map_err(|e| e.to_string()),
+        Codec::Positional => crate::poscodec::from_reader(r).map_err(|e| e.to_string()),
         Codec::Cbor | Codec::CborPacked => serde_cbor::from_reader(r).map_err(|e| e.to_string()),
         #[cfg(feature = "borsh")]
         Codec::Borsh => borsh::from_reader(r).map_err(|e| format!("{e:?}")),
@@ -252,8 +281,63 @@ fn hex_bits(b: &[u64]) -> String {
     b.iter().map(|w| format!("{w:016x}")).collect::<Vec<_>>().join(" ")
 }
 
+/// The value itself, or embedded in a standard container, through one codec.
+fn roundtrip<V: Wire + Clone>(
+    v: &V,
+    walk: &dyn Fn(&V, &mut Vec<u64>),
+    scn: &PipeScn,
+    cov: &mut Cov,
+    prog: &Progress,
+) -> Result<u64, (String, String)>
+where
+    Vec<V>: Wire,
+    Option<V>: Wire,
+    (V, V): Wire,
+    Box<V>: Wire,
+{
+    match scn.wrap {
+        Wrap::None => roundtrip_one(v, walk, scn, cov, prog),
+        Wrap::Vec2 => roundtrip_one(
+            &vec![v.clone(), v.clone()],
+            &|w: &Vec<V>, out: &mut Vec<u64>| {
+                out.push(w.len() as u64);
+                for x in w {
+                    walk(x, out);
+                }
+            },
+            scn,
+            cov,
+            prog,
+        ),
+        Wrap::Some => roundtrip_one(
+            &Some(v.clone()),
+            &|w: &Option<V>, out: &mut Vec<u64>| match w {
+                Some(x) => {
+                    out.push(1);
+                    walk(x, out)
+                }
+                None => out.push(0),
+            },
+            scn,
+            cov,
+            prog,
+        ),
+        Wrap::Pair => roundtrip_one(
+            &(v.clone(), v.clone()),
+            &|w: &(V, V), out: &mut Vec<u64>| {
+                walk(&w.0, out);
+                walk(&w.1, out);
+            },
+            scn,
+            cov,
+            prog,
+        ),
+        Wrap::Boxed => roundtrip_one(&Box::new(v.clone()), &|w: &Box<V>, out: &mut Vec<u64>| walk(w, out), scn, cov, prog),
+    }
+}
+
 /// One value through one codec: fault-free first, then over the faulty pipe.
-fn roundtrip<V: Wire>(
+fn roundtrip_one<V: Wire>(
     v: &V,
     walk: &dyn Fn(&V, &mut Vec<u64>),
     scn: &PipeScn,
@@ -261,7 +345,19 @@ fn roundtrip<V: Wire>(
     prog: &Progress,
 ) -> Result<u64, (String, String)> {
     let codec = scn.codec;
-    let what = format!("{} via {} ({} build)", type_name(scn), codec.name(), BUILD);
+    let what = format!(
+        "{}{} via {} ({} build)",
+        type_name(scn),
+        match scn.wrap {
+            Wrap::None => "",
+            Wrap::Vec2 => " sent as vec![v, v]",
+            Wrap::Some => " sent as Some(v)",
+            Wrap::Pair => " sent as (v, v)",
+            Wrap::Boxed => " sent as Box<v>",
+        },
+        codec.name(),
+        BUILD
+    );
     let mut want = Vec::new();
     walk(v, &mut want);
     let mut dig = Digest::new();
@@ -431,7 +527,7 @@ fn valid(scn: &PipeScn) -> bool {
     if scn.nums.len() != expected_len(scn) || scn.nums.iter().any(|x| x.is_nan()) {
         return false;
     }
-    if matches!(scn.codec, Codec::Json | Codec::JsonValue) && scn.nums.iter().any(|x| !x.is_finite()) {
+    if matches!(scn.codec, Codec::Json | Codec::JsonValue | Codec::JsonPretty) && scn.nums.iter().any(|x| !x.is_finite()) {
         return false;
     }
     scn.pipe.wmax >= 1 && scn.pipe.rmax >= 1 && scn.pipe.eintr_w_pct <= 90 && scn.pipe.eintr_r_pct <= 90
@@ -536,9 +632,9 @@ fn gen_num(rng: &mut Rng, finite_only: bool) -> f64 {
 
 fn codecs() -> &'static [Codec] {
     if cfg!(feature = "borsh") {
-        &[Codec::Json, Codec::Cbor, Codec::CborPacked, Codec::JsonValue, Codec::Borsh, Codec::Borsh]
+        &[Codec::Json, Codec::Cbor, Codec::CborPacked, Codec::JsonValue, Codec::JsonPretty, Codec::Positional, Codec::Positional, Codec::Borsh, Codec::Borsh, Codec::Borsh]
     } else {
-        &[Codec::Json, Codec::Cbor, Codec::CborPacked, Codec::JsonValue]
+        &[Codec::Json, Codec::Cbor, Codec::CborPacked, Codec::JsonValue, Codec::JsonPretty, Codec::Positional, Codec::Positional]
     }
 }
 
@@ -587,6 +683,13 @@ fn gen_scn(rng: &mut Rng, _tier: Tier) -> PipeScn {
         nseg,
         nums: vec![],
         codec,
+        wrap: match rng.below(10) {
+            0 => Wrap::Vec2,
+            1 => Wrap::Some,
+            2 => Wrap::Pair,
+            3 => Wrap::Boxed,
+            _ => Wrap::None,
+        },
         pipe: PipeCfg {
             wmax: *rng.pick(&[1usize, 1, 2, 3, 7, 8, 9, 64, 4096]),
             rmax: *rng.pick(&[1usize, 1, 2, 3, 7, 8, 9, 64, 4096]),
@@ -596,7 +699,7 @@ fn gen_scn(rng: &mut Rng, _tier: Tier) -> PipeScn {
         },
     };
     let n = expected_len(&scn);
-    let finite_only = matches!(codec, Codec::Json | Codec::JsonValue);
+    let finite_only = matches!(codec, Codec::Json | Codec::JsonValue | Codec::JsonPretty);
     scn.nums = (0..n).map(|_| gen_num(rng, finite_only)).collect();
     // equal fields (a codec or a custom impl that deduplicates / compares fields)
     match rng.below(12) {
@@ -638,6 +741,11 @@ fn shrink(scn: &PipeScn) -> Vec<PipeScn> {
                 out.push(s);
             }
         }
+    }
+    if scn.wrap != Wrap::None {
+        let mut s = scn.clone();
+        s.wrap = Wrap::None;
+        out.push(s);
     }
     if scn.shape == Shape::Piecewise && scn.nseg > 0 {
         let w = scn.kind.nc() + 1;
@@ -682,6 +790,7 @@ fn to_json(scn: &PipeScn) -> Value {
         "segments": scn.nseg,
         "numbers": fj_list(&scn.nums),
         "codec": scn.codec.name(),
+        "sent_as": match scn.wrap { Wrap::None => "the value itself", Wrap::Vec2 => "vec![v, v]", Wrap::Some => "Some(v)", Wrap::Pair => "(v, v)", Wrap::Boxed => "Box::new(v)" },
         "pipe": {"max_bytes_per_write": scn.pipe.wmax, "max_bytes_per_read": scn.pipe.rmax, "interrupted_write_pct": scn.pipe.eintr_w_pct, "interrupted_read_pct": scn.pipe.eintr_r_pct, "pipe_seed": scn.pipe.seed},
     })
 }
@@ -700,6 +809,8 @@ fn from_json(v: &Value) -> Result<PipeScn, String> {
         "borsh" => Codec::Borsh,
         "serde_cbor(packed)" => Codec::CborPacked,
         "serde_json(Value tree)" => Codec::JsonValue,
+        "serde_json(pretty, from_str)" => Codec::JsonPretty,
+        "positional(visit_seq)" => Codec::Positional,
         s => return Err(format!("bad codec {s}")),
     };
     if codec == Codec::Borsh && !cfg!(feature = "borsh") {
@@ -712,6 +823,13 @@ fn from_json(v: &Value) -> Result<PipeScn, String> {
         nseg: jusize(v, "segments")?,
         nums: jf_list(v.get("numbers").ok_or("missing numbers")?)?,
         codec,
+        wrap: match v.get("sent_as").and_then(|s| s.as_str()) {
+            Some("vec![v, v]") => Wrap::Vec2,
+            Some("Some(v)") => Wrap::Some,
+            Some("(v, v)") => Wrap::Pair,
+            Some("Box::new(v)") => Wrap::Boxed,
+            _ => Wrap::None,
+        },
         pipe: PipeCfg {
             wmax: jusize(p, "max_bytes_per_write")?,
             rmax: jusize(p, "max_bytes_per_read")?,
@@ -755,6 +873,8 @@ impl World for C18 {
                         Codec::Borsh => "codec_borsh",
                         Codec::CborPacked => "codec_serde_cbor_packed",
                         Codec::JsonValue => "codec_serde_json_value_tree",
+                        Codec::JsonPretty => "codec_serde_json_pretty_from_str",
+                        Codec::Positional => "codec_positional_visit_seq",
                     });
                     cov.hit(match base.shape {
                         Shape::Knot => "shape_knot",
